@@ -291,11 +291,34 @@ def run_history(h):
             fresh_cache[k] = fresh_arrays(m["defs"], m["config"])
         return fresh_cache[k]
 
+    states = []
+
+    def edges_of(defs, n):
+        out, todo = set(), [n]
+        while todo:
+            x = todo.pop()
+            for dpn in defs[x]["deps"]:
+                if (x, dpn) not in out:
+                    out.add((x, dpn))
+                    todo.append(dpn)
+        return frozenset(out)
+
+    def note_state(m):
+        """Known finding F20 by mechanism: two states reached in this history in which a data type has the
+        same key but a different dependency sub-graph (the lineage records no dependency structure)."""
+        fk = fresh_keys_of(m)
+        eg = {n: edges_of(m["defs"], n) for n in ORDER}
+        for fk2, eg2 in states:
+            if any(fk[n] == fk2[n] and eg[n] != eg2[n] for n in ORDER):
+                hidden["deps"] = True
+        states.append((fk, eg))
+
     try:
         # every live context has its own model (definitions + options) = what a brand-new context would be given
         models = [{"ctx": fresh_context(BASE_DEFS, {}, d), "defs": copy.deepcopy(BASE_DEFS), "config": {}} for _ in range(2)]
         mutated = False
         requests_after_mutation = 0
+        note_state(models[0])
         for i, s in enumerate(h["steps"]):
             op = s["op"]
             targets = sorted({k % len(models) for k in s.get("who", [0, 1])}) if op in ("set_tracked", "set_untracked", "reregister") else []
@@ -351,6 +374,7 @@ def run_history(h):
                     if s.get("also_version") is not None and ver_before != s["also_version"]:
                         expect_changed = expect_changed | descendants(defs, p) | (descendants(defs, "pd") if p == "pa" else set())
                 after_keys = fresh_keys_of(m)
+                note_state(m)
                 cnt["sensitivity_checks"] = cnt.get("sensitivity_checks", 0) + 1
                 got_changed = {n for n in ORDER if after_keys[n] != before_keys[n]}
                 if got_changed != expect_changed:
